@@ -4573,5 +4573,7 @@ MANIFEST = {
             'correspondence. The search evaluates every clause on the real code (finite differences, exact C:strain, exact '
             'Sylvester minors, Burgers circuit, rational rotations, malformed axes, the dispatcher over the anisotropy range '
             '0 .. 0.1 against an independent complete isotropic closed form, re-solve sequences).',
-    'technique': 'Lean 4 theorems over a hand-written model + translator-generated closed form + differential correspondence',
+    'technique': 'Lean 4 theorems over a hand-written model proved equal to definitions regenerated from the source with ast '
+                 '(Generated/StrohSource.lean: Stroh assembly, base-class option handling, dispatcher; gen_..._eq_model + statement pins) '
+                 '+ translator-generated isotropic closed form (Generated/IsoVolterra.lean) + differential correspondence + exact oracle',
 }
